@@ -200,4 +200,10 @@ def Ctl.step (c : Ctl) (termPre termPost : Bool) (d : Delta) : Ctl × Option Msg
     | some _ => ((c.after d).finalize, (c.after d).finalize.message termPost, true)
     | none => (c.after d, none, true)
 
+/-- the scipy-style one-liners (`fmin`, `fmin_powell`, `diffev`, `diffev2`; scipy_optimize.py l.534-537, l.945-948,
+    differential_evolution.py l.856-870) after `Solve`:
+    `if fcalls >= solver._maxfun: warnflag = 1  elif iterations >= solver._maxiter: warnflag = 2  else 0` -/
+def Ctl.warnflag (c : Ctl) : Nat :=
+  if c.maxfun.reached c.evals = true then 1 else if c.maxiter.reached c.gens = true then 2 else 0
+
 end MysticVerif.Solver
